@@ -215,24 +215,15 @@ def opEncodeInto (c : Ctx) (st : State) (o : Opts) (impl : StrImpl) (t : Target)
   | none => .ok (st, .nothing)             -- not a call the caller can make
   | some (st0, id) =>
     let l := (st0.bytesOf id).length
-    match st0.runOn id (some l) (encodeToks c.env (strEnc c.env c.nat impl) (compile v)) with
+    match st0.runOn id (some l) (encodeInto c.env c.nat impl o · v) with
     | .error e => .error e
     | .ok (st1, id1, true) =>
       -- error: `*buf` keeps whatever was appended; the caller still holds the slice
       let n := (st1.bytesOf id1).length
       .ok (st1.give id1 0 n, .err)
     | .ok (st1, id1, false) =>
-      if o.escapeHTML then
-        -- encodeFinish: `HTMLEscape(nil, buf)` - a brand-new array holding the escaped WHOLE slice
-        let src := st1.bytesOf id1
-        match htmlEscapeLoop c.env c.nat.html { mem := [], len := 0, gen := 0 } src with
-        | .error e => .error e
-        | .ok sb =>
-          let r := st1.alloc .internal sb.mem sb.len
-          .ok (r.1.give r.2 0 sb.len, .bytes r.2 (sb.mem.take sb.len))
-      else
-        let n := (st1.bytesOf id1).length
-        .ok (st1.give id1 0 n, .bytes id1 (st1.bytesOf id1))
+      let n := (st1.bytesOf id1).length
+      .ok (st1.give id1 0 n, .bytes id1 (st1.bytesOf id1))
 
 /-- what json.Indent writes for the (possibly HTML-escaped) compact output: the escape ran before
     the layout, so it touched the string literals only - never the caller's prefix / indent -/
